@@ -159,6 +159,30 @@ def run_sched(ctx, prop, modules, theorems):
         ctx.read_stats(vdir)
         failures += ctx.l2(vdir)
         ctx.l1(vdir, label="L1-victim")
+    # ---- C11 only: "a new runner is started only where it is predicted to fit": the model takes the fit answer from the
+    # environment (`Fit`); the functions that PRODUCE the answer (pickBestFullFitByLibrary, PredictServerFit,
+    # EstimateGPULayers, updateFreeSpace) are C16's model: run its three ties here too (reduced sizes): exact L1 against
+    # oracle-c16 and its L2 clauses, reported under this property
+    if prop == "C11" and not ctx.replay:
+        ctx.oracle_name = "C16"
+        ctx.lake_build(["oracle-c16"])
+        env16 = {"VERIF_C16_VARIANT": os.environ.get("VERIF_C16_VARIANT", ""), "VERIF_CORPUS": os.path.join(core.ROOT, "corpus", "C16")}
+        for pkg, ov, test, n, label in (
+                ("./llm/", {"llm/zz_verif_c16_test.go": "llm/zz_verif_c16_test.go"}, "^TestVerifC16$", ctx.scale(2000, 30000), "L1-estimate"),
+                ("./server/", {"server/zz_verif_c16_test.go": "server/zz_verif_c16_test.go"}, "^TestVerifC16Sched$", ctx.scale(1000, 15000), "L1-freespace"),
+                ("./server/", {"server/zz_verif_c16_test.go": "server/zz_verif_c16_test.go"}, "^TestVerifC16Pick$", ctx.scale(800, 10000), "L1-pick")):
+            rc16, out16, dir16 = ctx.go_test(pkg, ov, test, env=dict(env16, VERIF_N=n), timeout=1200)
+            if rc16 != 0:
+                ctx.violation("driver-failed", test, out16[-1500:], no_input=True)
+            ctx.read_stats(dir16)
+            ctx.l1(dir16, label=label)
+            for f in ctx.l2(dir16):
+                if "nowrap=false" in f.get("detail", ""):
+                    continue      # uint64 wrap-around with figures near 2^64: C16's known finding W2, reported by C16's check
+                f = dict(f)
+                f["kind"] = "c11-fit-" + f["kind"]
+                failures.append(f)
+        ctx.oracle_name = "C01"
     # ---- L2: this property's monitors
     ctx.classify([f for f in failures if f["kind"].startswith(prefix)])
     ctx.coverage["l2_kinds_other_properties"] = sorted({f["kind"] for f in failures if not f["kind"].startswith(prefix)})
